@@ -12,7 +12,7 @@ def run(ctx):
     l2 = ctx.rule("L2", "a finished or unknown job falls through to the file-based decision; stale or pending-dependency targets are submitted (decision table of C02)")
     import_rules(ctx, l2, "C02", only={"R1", "R1b"})
     l3 = ctx.rule("L3", "the staleness test is strict and over all files: outputs written in the same tick as inputs are up to date; a modified source is noticed", min_instances=5)
-    import_rules(ctx, l3, "C01", only={"R1", "R2", "R3", "R4"})
+    import_rules(ctx, l3, "C01", only={"R1", "R2", "R3", "R4", "R6"})
     l4 = ctx.rule("L4", "an accepted submission is recorded and marked SUBMITTED, so the same run / the next run does not submit it again", min_instances=6)
     import_rules(ctx, l4, "C08", only={"R2"})
     l5 = ctx.rule("L5", "the dependency relation is the file relation (normalised paths, order independent), so 'everything downstream' is well defined", min_instances=8)
